@@ -23,7 +23,7 @@ func TestC05(t *testing.T) {
 	mon.Main(t, mon.Check{
 		ID:    "C05",
 		Level: "exploration",
-		Rule:  "full stack in real time: real mailbox.Server/Accept and mailbox.Client/Dial (GBN inside) over an in-memory hashmail relay (semantics of aperture's hashmail server), real NoiseGrpcConn handshakes on top, gRPC-like drivers (accept loop; dial loop that re-dials when a connection fails). Each session transfers a PRNG sequence of writes (sizes 0..65535 incl. 32767/32768/32769/65534/65535) in both directions with PRNG read-buffer sizes; after a connection failure the application restarts its transfer on the next connection; a quarter of the sessions give up their first connection themselves after a PRNG number of bytes (usually inside a record). Relay faults until a cut-off: per-message drop and delay, Send/Recv stream errors at PRNG points (forcing the re-create-and-retry loops), NewCipherBox/RecvStream/SendStream failures. Oracles: on every secured connection the bytes read equal, position by position, the bytes the peer writes on its connection (prefix; any mismatch, duplicate or gap is a violation); after faults cease the transfer completes (possibly after re-dials) or the deadline miss is re-run alone with a 300 s deadline and only a reproduced silent hang is a violation: relay traffic still flowing without a visible failure, or no relay operation at all for 20 s (every live piece of the client has a timer of at most 10 s that ends in a relay operation); otherwise inconclusive; every CipherBox.Msg the relay ever saw is scanned for 24-byte windows of both plaintext streams and for the auth payload (raw/hex/base64). Non-trivial = a session with at least one injected fault that delivered bytes in both directions; distinct = (fault profile, sizes hash).",
+		Rule:  "full stack in real time: real mailbox.Server/Accept and mailbox.Client/Dial (GBN inside) over an in-memory hashmail relay (semantics of aperture's hashmail server), real NoiseGrpcConn handshakes on top, gRPC-like drivers (accept loop; dial loop that re-dials when a connection fails). Each session transfers a PRNG sequence of writes (sizes 0..65535 incl. 32767/32768/32769/65534/65535) in both directions with PRNG read-buffer sizes; after a connection failure the application restarts its transfer on the next connection; a quarter of the sessions give up their first connection themselves after a PRNG number of bytes (usually inside a record). Relay faults until a cut-off: per-message drop and delay, Send/Recv stream errors at PRNG points (forcing the re-create-and-retry loops), NewCipherBox/RecvStream/SendStream failures. Oracles: on every secured connection the bytes read equal, position by position, the bytes the peer writes on its connection (prefix; any mismatch, duplicate or gap is a violation); after faults cease the transfer completes (possibly after re-dials) or the deadline miss is re-run alone with a 300 s deadline and only a reproduced silent hang is a violation: relay traffic still flowing without a visible failure, or no relay operation at all for 20 s (every live piece of the client has a timer of at most 10 s that ends in a relay operation); otherwise inconclusive; every CipherBox.Msg the relay ever saw is scanned for 24-byte windows of both plaintext streams and for the auth payload (raw/hex/base64). A quarter of the cases are gRPC sessions instead: a real grpc.Server on the real mailbox.Server and a real grpc.ClientConn through mailbox.Client, both with NoiseGrpcConn credentials, over the same relay and fault profiles; 6-25 unary calls (3 in flight) and 5-34 messages through a bidirectional stream, requests up to 70 KB and replies up to 200 KB, failed calls repeated; oracle: every answered call carries exactly the reply to its request, and after faults cease all calls are answered (same re-run rule; a reproduced hang without any failing call for 90 s is a violation). Non-trivial = a session with at least one injected fault that delivered bytes in both directions; distinct = (fault profile, sizes hash).",
 		Assumptions: []string{
 			"real time: progress verdicts follow the re-run rule of DESIGN 1.3; safety verdicts do not depend on time",
 			"the relay is a model of aperture's hashmail server (one reader and one writer per box, FIFO, errors as gRPC surfaces them)",
@@ -43,6 +43,10 @@ func TestC05(t *testing.T) {
 const c05Batch = 12
 
 func runC05(c *mon.Case) {
+	if c.Idx%4 == 3 {
+		runC05Grpc(c)
+		return
+	}
 	var wg sync.WaitGroup
 	seeds := make([]int64, c05Batch)
 	for i := range seeds {
